@@ -58,7 +58,7 @@ func RewriteClause(decls map[ast.PredicateSym]*ast.Decl, clause ast.Clause) ast.
 				defVars = append(defVars, v)
 			}
 			if decl, ok := decls[p.Predicate]; ok {
-				if prefix, ok := decl.Reflects(); ok {
+				if prefix, ok := decl.Reflects(); ok && len(p.Args) > 0 {
 					// A predicate that reflects a name prefix type can be rewritten when the
 					// argument is:
 					// - a variable that is guaranteed to have ArgModeInput, or
